@@ -86,7 +86,7 @@ func match(t *rt.Thread, c *rt.GoCont) (rt.Cont, error) {
 	if err == nil {
 		ptn, err = c.StringArg(1)
 	}
-	if err == nil && c.NArgs() >= 3 {
+	if err == nil && c.NArgs() >= 3 && !c.Arg(2).IsNil() {
 		init, err = c.IntArg(2)
 	}
 	if err != nil {
@@ -149,7 +149,7 @@ func gmatch(t *rt.Thread, c *rt.GoCont) (rt.Cont, error) {
 	if err == nil {
 		ptn, err = c.StringArg(1)
 	}
-	if err == nil && c.NArgs() >= 3 {
+	if err == nil && c.NArgs() >= 3 && !c.Arg(2).IsNil() {
 		init, err = c.IntArg(2)
 	}
 	if err != nil {
